@@ -152,8 +152,47 @@ def _gridded_setup():
     return mk, reqs
 
 
+def _misc_setup():
+    """other configured callables that are meant to be reused: segmentation finder, grouper, local background, image depth"""
+    d1, p1 = _scene(1)
+    d2, p2 = _scene(2, shift=0.7)
+    mask = np.zeros(d1.shape, dtype=bool); mask[5:16, 5:14] = True
+
+    def mk_sf():
+        from photutils.segmentation import SourceFinder
+        return SourceFinder(npixels=5, nlevels=8, contrast=0.01, progress_bar=False)
+
+    def sf(img, thr, **kw):
+        def f(o):
+            s = o(img - 2.0, thr, **kw)
+            return None if s is None else [s.data, s.labels, getattr(s, 'deblended_labels', None)]
+        return f
+    sf_req = {'img1': sf(d1, 3.0), 'img2': sf(d2, 3.0), 'img1_masked': sf(d1, 3.0, mask=mask), 'high': sf(d1, 1e6)}
+
+    def mk_gr():
+        from photutils.psf import SourceGrouper
+        return SourceGrouper(6.0)
+    x1, y1 = np.array([p[0] for p in p1]), np.array([p[1] for p in p1])
+    gr_req = {'four': lambda o: o(x1, y1), 'two': lambda o: o(x1[:2], y1[:2]), 'far': lambda o: o(x1 * 5, y1 * 5), 'one': lambda o: o(x1[:1], y1[:1])}
+
+    def mk_lb():
+        from photutils.background import LocalBackground
+        return LocalBackground(5.0, 9.0)
+    lb_req = {'img1': lambda o: o(d1, x1, y1), 'img2': lambda o: o(d2, x1, y1), 'img1_masked': lambda o: o(d1, x1, y1, mask=mask), 'scalar': lambda o: o(d1, 20.0, 20.0)}
+
+    def mk_dp():
+        from photutils.utils import ImageDepth
+        return ImageDepth(2.0, nsigma=3.0, napers=30, niters=2, mask_pad=1, seed=7, progress_bar=False)
+    smask = np.zeros(d1.shape, dtype=bool); smask[6:14, 6:18] = True; smask[22:34, 27:40] = True
+    def dp(img, m):
+        return lambda o: [list(o(img, m)), o.fluxes, o.napers_used, [a.positions for a in o.apertures]]      # result + the public per-call attributes
+    dp_req = {'img1': dp(d1, smask), 'img2': dp(d2, smask), 'img1_other_mask': dp(d1, mask | smask)}
+    return (mk_sf, sf_req), (mk_gr, gr_req), (mk_lb, lb_req), (mk_dp, dp_req)
+
+
 def kinds(quick):
     pm = _phot_requests()
+    (mk_sf, sf_req), (mk_gr, gr_req), (mk_lb, lb_req), (mk_dp, dp_req) = _misc_setup()
     fr = _finder_requests()
     emk, ereq = _ellipse_setup()
     gmk, greq = _gridded_setup()
@@ -167,6 +206,10 @@ def kinds(quick):
         'IRAFStarFinder_xycoords': dict(make=_finder_make('iraf_xy'), reqs=fr, config=None, depth=3, subset=['img1', 'img2', 'img1_masked']),
         'Ellipse': dict(make=emk, reqs=ereq, config=None, depth=2, subset=['free', 'fixcen', 'fixpa'] + ([] if quick else ['one'])),
         'GriddedPSFModel': dict(make=gmk, reqs=greq, config=None, depth=3, subset=list(greq)),
+        'SourceFinder': dict(make=mk_sf, reqs=sf_req, config=None, depth=2, subset=list(sf_req)),
+        'SourceGrouper': dict(make=mk_gr, reqs=gr_req, config=None, depth=3, subset=list(gr_req)),
+        'LocalBackground': dict(make=mk_lb, reqs=lb_req, config=None, depth=3, subset=list(lb_req)),
+        'ImageDepth': dict(make=mk_dp, reqs=dp_req, config=None, depth=2, subset=list(dp_req)),
     }
     return k
 
